@@ -94,7 +94,7 @@ PROPS = {
             'Predictor::predict therefore requires pred_scores_ok (scorer tables well-formed; no i32 overflow for this text) and sentences shorter than 2^31 characters: stated ranges, not proved of Predictor::new',
             'that the reported match sequence is "the longest pattern ending at each position" and that merged entries carry the sum of their suffixes (so that the sum over matches equals the sum over ALL occurrences) is assumed, covered only by the bounded sweep',
             'CharWeightMerger/TypeWeightMerger::merge (BTreeMap + RefCell + string slicing) are outside Verus: that suffix merging makes the longest match carry the sum of its suffixes is covered only by the bounded sweep',
-            'TypeScorerBoundaryCache::new is PROVED in T_cache as a whole function (postcondition: cache_wf — window, mask = 8^(2W)-1, one entry per id — and the table content: every id that spells a type sequence holds the sum, over the occurrences the automaton reports in that sequence, of the model weight at position 2W - end; other entries 0), with seqid_to_seq (accepted id == rolling id of the decoded sequence); ASSUMED there: the daachorse constructor call (replaced by a stub: one pattern per n-gram in model order, a fixed match sequence per haystack), find_overlapping_iter/next, usize::pow for base 8, 1 <= window <= 3 at the dispatch in TypeScorer::new, no i32 overflow of the partial sums',
+            'TypeScorerBoundaryCache::new is PROVED in T_cache as a whole function (postcondition: cache_wf — window, mask = 8^(2W)-1, one entry per id — and the table content: every id that spells a type sequence holds the sum, over the occurrences the automaton reports in that sequence, of the model weight at position 2W - end; other entries 0), with seqid_to_seq (accepted id == rolling id of the decoded sequence); ASSUMED there: the daachorse constructor call (replaced by a stub: one pattern per n-gram in model order, a fixed match sequence per haystack), find_overlapping_iter/next, usize::pow for base 8, no i32 overflow of the partial sums; the dispatch TypeScorer::new is PROVED to choose the cache only for windows 1..=3 (the nested all(..) over the tag n-gram models replaced by an assumed stub; TypeScorerBoundary::new and TypeScorerBoundaryTag::new opaque)',
         ],
     },
     'C06': {
